@@ -80,6 +80,8 @@ def stmt(s, ind=1):
     if k == "block":
         return p + block(s["b"], ind) + "\n"
     if k == "decl":
+        if s["init"]["k"] != "none":
+            return p + "%s %s = %s;\n" % (s["ctype"], s["cname"], top(s["init"]))
         return p + "%s %s;\n" % (s["ctype"], s["cname"])
     if k == "if":
         r = p + "if (%s) %s" % (top(s["c"]), block(s["t"], ind))
